@@ -198,6 +198,55 @@ def run(seed=0, tier="quick", aimed=None):
             return fail("vorticity_stretching_flux_3d", e, extra)
         if len(samples) < 2:
             samples.append({"oracle": "poly_exactness", "h": h, "grid3d": [nz, ny, nx], "kernels_checked": cases})
+    # ---- the simulators' own coordinate field (axis convention of _init_domain): x along the LAST array axis, cell centres
+    #      at (index + 1/2) dx, dx = x_range / nx, the other extents follow from dx; and a stencil evaluated on a polynomial
+    #      sampled on THAT field reproduces the derivative
+    import warnings
+
+    import sopht.simulator as sps
+
+    for t in range(2 if tier == "quick" else 6):
+        for dim in (2, 3):
+            r2 = impl.rng(seed, "c05domain", t, dim)
+            while True:
+                shape = tuple(int(v) for v in r2.integers(6, 12, size=dim))
+                if len(set(shape)) == dim:
+                    break
+            xr = float(r2.uniform(0.5, 3.0))
+            sims = []
+            with warnings.catch_warnings():
+                warnings.simplefilter("ignore")
+                sims.append(("passive", sps.PassiveTransportFlowSimulator(kinematic_viscosity=0.01, grid_dim=dim, grid_size=shape, x_range=xr, real_t=np.float64)))
+                if dim == 2:
+                    sims.append(("ns2d", sps.UnboundedNavierStokesFlowSimulator2D(grid_size=shape, x_range=xr, kinematic_viscosity=0.01, real_t=np.float64)))
+                else:
+                    sims.append(("ns3d", sps.UnboundedNavierStokesFlowSimulator3D(grid_size=shape, x_range=xr, kinematic_viscosity=0.01, real_t=np.float64)))
+            for name, sim in sims:
+                cases += 1
+                dxs = xr / shape[-1]
+                info = {"simulator": name, "grid": list(shape), "x_range": xr}
+                if abs(float(sim.dx) - dxs) > 1e-14 * dxs:
+                    return fail("domain_dx", abs(float(sim.dx) - dxs), info)
+                idx = np.indices(shape)
+                for c_ in range(dim):
+                    want = (idx[dim - 1 - c_] + 0.5) * dxs
+                    e = float(np.max(np.abs(np.asarray(sim.position_field[c_], dtype=np.float64) - want)))
+                    if e > 1e-12 * xr:
+                        return fail(f"domain_position_field_component_{c_}_not_(index_along_array_axis_{dim - 1 - c_}+1/2)dx", e, info)
+                ranges = [float(sim.x_range), float(sim.y_range)] + ([float(sim.z_range)] if dim == 3 else [])
+                for c_ in range(dim):
+                    if abs(ranges[c_] - dxs * shape[dim - 1 - c_]) > 1e-12 * xr:
+                        return fail(f"domain_range_{'xyz'[c_]}", abs(ranges[c_] - dxs * shape[dim - 1 - c_]), info)
+                # Laplacian of a quadratic sampled on the simulator's own coordinates
+                q_ = r2.normal(size=dim)
+                P_ = sum(q_[c_] * np.asarray(sim.position_field[c_], dtype=np.float64) ** 2 for c_ in range(dim))
+                out_ = np.zeros(shape)
+                gen = spne.gen_diffusion_flux_pyst_kernel_2d if dim == 2 else spne.gen_diffusion_flux_pyst_kernel_3d
+                gen(real_t=np.float64, reset_ghost_zone=False)(diffusion_flux=out_, field=P_, prefactor=1.0 / float(sim.dx) ** 2)
+                I_ = (slice(1, -1),) * dim
+                e = impl.relerr(out_[I_], np.full_like(out_[I_], 2 * float(np.sum(q_))))
+                if e > tol:
+                    return fail("laplacian_on_simulator_coordinates", e, info)
     return {"ok": True, "cases": cases, "failing_input": None, "samples": samples}
 
 
